@@ -64,6 +64,25 @@ def run(report, prog, res, collect=None):
                 report.deficits.append('C07-R4: %s has no buffer for %s any more (%s): the table entry is stale' % (q, spec_text(spec), src))
             for v in names:
                 n += buf.check(report, prog, f, v, 'C07-R4', src, base=base.get(q, 0), sources=sources, collect=collect)
+    # handover server: _process_request_data indexes records[0]; ndeflib yields at least one record for non-empty octets or raises
+    # DecodeError (trusted), so the caller must not hand over an empty request
+    hs = prog.func('nfc.handover.server.HandoverServer.serve')
+    hc = cfg_of(hs)
+    pr = prog.func('nfc.handover.server.HandoverServer._process_request_data')
+    idx = [x for x in ast.walk(pr.node) if isinstance(x, ast.Subscript) and norm(x) == 'records[0]']
+    calls_ = [c for c in ast.walk(hs.node) if isinstance(c, ast.Call) and norm(c.func) == 'self._process_request_data']
+    okk = len(calls_) == 1
+    if okk and idx:
+        arg = norm(calls_[0].args[0])
+        guards = [(t, 'false') for e, t in hc.test_nodes.items() if norm(e) in ('len(%s) == 0' % arg, 'not %s' % arg)] + \
+                 [(t, 'true') for e, t in hc.test_nodes.items() if norm(e) in ('len(%s) > 0' % arg, arg, 'len(%s) != 0' % arg)]
+        okk = bool(guards) and cfg_node_for(hc, calls_[0]) not in hc.reachable(hc.entry, avoid_edges=guards)
+    report.check(okk or not idx, 'C07-R4', key(hs.qname, 'the request handed to _process_request_data is not empty'), hs.loc(),
+                 'serve() can call _process_request_data with an empty request: the decoder yields no record and records[0] raises IndexError in the '
+                 'connection thread')
+    if idx and not okk and collect is not None:
+        collect.setdefault(pr.qname, []).append((idx[0], 'IndexError', 'records[0] [no record is decoded from an empty request]'))
+    n += 1
     for q, spec, src in MAYBE_NONE:
         for v in names_for(prog.func(q), spec):
             buf.check_none(report, prog, prog.func(q), v, 'C07-R4', src, collect=collect)
